@@ -323,9 +323,22 @@ def rule_pairing(repo, rep):
     def ptxt(node_):
         return re.sub(rf"\b{re.escape(_opn[0])}\b", "op", str(norm(node_)))
 
-    rg = [n for n in ast.walk(po) if isinstance(n, ast.If) and ptxt(n.test) == "op.type.is_depthwise_conv2d_op() or op.type.is_conv2d_op() or op.type == Op.FullyConnected"]
+    def disjuncts(t_):
+        """canonical set of the disjuncts of a test: `C == x` is written `x == C`"""
+        vals = t_.values if isinstance(t_, ast.BoolOp) and isinstance(t_.op, ast.Or) else [t_]
+        out = set()
+        for v_ in vals:
+            if isinstance(v_, ast.Compare) and len(v_.ops) == 1 and isinstance(v_.ops[0], ast.Eq) and ptxt(v_.left).startswith("Op."):
+                out.add(f"{ptxt(v_.comparators[0])} == {ptxt(v_.left)}")
+            else:
+                out.add(ptxt(v_))
+        return out
+
+    WANT_CONV = {"op.type.is_depthwise_conv2d_op()", "op.type.is_conv2d_op()", "op.type == Op.FullyConnected"}
+    rg = [n for n in ast.walk(po) if isinstance(n, ast.If) and disjuncts(n.test) == WANT_CONV]
     rep.check(len(rg) == 1 and len(calls_in(rg[0], "clone_and_reshape_tensor")) == 3, "C11-d", f"{TR}:TFLiteSubgraph.parse_operator", "reader clones/reshapes weights and bias of conv / depthwise / FC", "")
-    wg = [n for n in ast.walk(init) if isinstance(n, ast.If) and norm(n.test) == "op.type.is_conv2d_op() or op.type.is_depthwise_conv2d_op() or op.type == Op.FullyConnected"]
+    wg = [n for n in ast.walk(init) if isinstance(n, ast.If) and {str(norm(v_)) if not (isinstance(v_, ast.Compare) and str(norm(v_.left)).startswith("Op.")) else f"{str(norm(v_.comparators[0]))} == {str(norm(v_.left))}"
+                                                                    for v_ in (n.test.values if isinstance(n.test, ast.BoolOp) and isinstance(n.test.op, ast.Or) else [n.test])} == WANT_CONV]
     ok = len(wg) == 1
     if ok:
         loops = [l for l in ast.walk(wg[0]) if isinstance(l, ast.For)]
